@@ -239,6 +239,38 @@ def _make_pred(name):
     return pr
 
 
+_BRACKET_SPEC = []
+
+
+def _bracket_spec_class():
+    """A WorkChainSpec whose get_outline() (the documented way to get at the outline) wraps what was declared with a
+    prologue and an epilogue step - an application that adds bookkeeping steps to every chain of its family."""
+    if not _BRACKET_SPEC:
+        from plumpy import workchains
+
+        class BracketSpec(workchains.WorkChainSpec):
+            def get_outline(self):
+                if getattr(self, '_pv_bracketed', None) is None:
+                    self._pv_bracketed = workchains._Block([_PRO, super().get_outline(), _EPI])
+                return self._pv_bracketed
+
+        _BRACKET_SPEC.append(BracketSpec)
+    return _BRACKET_SPEC[0]
+
+
+def _pro(self):
+    return self._run_step('pro')
+
+
+def _epi(self):
+    return self._run_step('epi')
+
+
+_pro.__name__ = _pro.__qualname__ = 'st_pro'
+_epi.__name__ = _epi.__qualname__ = 'st_epi'
+_PRO, _EPI = _pro, _epi
+
+
 def make_workchain(outline, behaviour):
     name = 'W_' + jkey([outline, behaviour])[:16]
     cls = getattr(gen_classes, name, None)
@@ -250,6 +282,10 @@ def make_workchain(outline, behaviour):
         namespace['st_' + step] = _make_step(step)
     for pred in preds:
         namespace['pr_' + pred] = _make_pred(pred)
+    if behaviour.get('bracket'):
+        namespace['_spec_class'] = _bracket_spec_class()
+        namespace['st_pro'] = _PRO
+        namespace['st_epi'] = _EPI
     if behaviour.get('stepper_key'):
         # a chain class that files the position in its outline under a key of its own (the class attribute is the hook)
         namespace['_STEPPER_STATE'] = behaviour['stepper_key']
